@@ -215,7 +215,44 @@ def run(ctx):
         bj = bulk.local_vec_jobs(n)
         br = run_api(ctx, exe, [{"id": j["id"], "calls": j["calls"]} for j in bj], "bulk", nproc=3)
         nb += sum(1 for j in bj if bulk.judge_local_vec(ctx, j, br[j["id"]], "scale"))
+    for n in ((70000,) if ctx.quick else (70000, 1100000)):
+        bj = bulk.long_batch_jobs(n)
+        br = run_api(ctx, exe, [{"id": j["id"], "calls": j["calls"]} for j in bj], "longbatch", nproc=3)
+        nb += sum(1 for j in bj if bulk.judge_long_batch(ctx, j, br[j["id"]], "scale"))
     ctx.cov["scale_scenarios_conforming"] = nb
+    # batch-size patterns: every sequence of three batches of 0-3 observations on one local histogram handle, each followed by a flush
+    # (the amounts are distinct powers of two, so the bucket clause applies after every flush)
+    pjobs = []
+    import itertools as _it
+    for pat in _it.product(range(4), repeat=3):
+        calls = [{"op": "histogram", "as": "m", "opts": {"name": "m", "help": "h", "buckets": [2.5, 20.5, 1e12]}}, {"op": "local", "of": "m", "as": "L"}]
+        k, tot, exp = 0, 0, []
+        for b in pat:
+            for _ in range(b):
+                calls.append({"op": "lobserve", "obj": "L", "v": 2 ** k})
+                tot += 2 ** k
+                k += 1
+            calls += [{"op": "lflush", "obj": "L"}, {"op": "metric", "obj": "m"}]
+            exp.append((len(calls) - 1, k, tot))
+        pjobs.append({"id": len(pjobs), "calls": calls, "exp": exp, "pat": pat})
+    pres = run_api(ctx, exe, [{"id": j["id"], "calls": j["calls"]} for j in pjobs], "patterns", nproc=2)
+    npat = 0
+    for j in pjobs:
+        rs = pres[j["id"]]
+        ok = all("ok" in x for x in rs)
+        for pos, cnt, tot in j["exp"]:
+            if not ok:
+                break
+            h = rs[pos]["ok"]["hist"]
+            got = {"n": h["count"], "s": h["sum"].get("i"), "b": [[fval(b[0]), b[1]] for b in h["b"]]}
+            if got["n"] != cnt or got["s"] != tot or not buckets_ok(got, True):
+                ok = False
+                ctx.violation("batch-pattern", "one local histogram handle flushed after batches of %s observations: after the flush that should leave %d observations summing to %d the shared histogram shows count %s, sum %s, cumulative buckets %s" % (
+                    list(j["pat"]), cnt, tot, got["n"], got["s"], got["b"]), {"bulk": True, "calls": j["calls"]})
+        if not all("ok" in x for x in rs):
+            ctx.violation("batch-pattern:call-failed", "batch pattern %s: %s" % (list(j["pat"]), [x for x in rs if "ok" not in x][0]), {"bulk": True, "calls": j["calls"]})
+        npat += 1 if ok else 0
+    ctx.cov["batch_patterns_conforming"] = npat
     ctx.cov.update({
         "traces_validated_against_impl": nconf + ntr_ok + af["af_conforming"], "behaviours_replayed": total, "behaviours_conforming": nconf, "recorded_traces": ntr, "recorded_traces_accepted": ntr_ok,
         "samples": samples, "exhaustive": True,
